@@ -118,6 +118,8 @@ SCENARIOS = {
     'percent-in-output-name': ('a%b', ['a.h', 'b.h']),
     'colon-in-output-directory': ('sub:dir/prog', ['a.h', 'b.h']),
     'dollar-in-output-name': ('do$llar', ['a.h', 'b.h']),
+    # a second translation unit in another C-family language (compiled by clang) that includes the same headers
+    'objective-c-source': ('prog', ['a.h', 'b.h']),
 }
 
 
@@ -148,12 +150,21 @@ class IncrementalBuild(Bounded):
                 _os.makedirs(_os.path.dirname(fp), exist_ok=True)
                 with open(fp, 'w') as f:
                     f.write(text)
+            objc = raw['scenario'] == 'objective-c-source'
+            if objc and not shutil.which('clang'):
+                return None
             if raw['scenario'] == 'precompiled-header':
                 w('build.bfg', "project('p')\npch = precompiled_header(file=%r)\nexecutable(%r, files=['main.c'], pch=pch)\n" % (hs[0], prog))
+            elif objc:
+                w('build.bfg', "project('p')\nexecutable(%r, files=['main.c', 'helper.m'])\n" % prog)
+                w('helper.m', '#include "%s"\nint helper(void) { return VALUE; }\n' % hs[0])
             else:
                 w('build.bfg', "project('p')\nexecutable(%r, files=['main.c'])\n" % prog)
             if raw['scenario'] == 'precompiled-header':
                 w('main.c', 'int main(void) { return VALUE - 3; }\n')      # sees the headers only through the PCH
+            elif objc:
+                # a stale helper.o (old VALUE) cancels the change seen by main.o
+                w('main.c', '#include "%s"\nint helper(void);\nint main(void) { return (VALUE - 3) + (helper() - VALUE); }\n' % hs[0])
             else:
                 w('main.c', '#include "%s"\nint main(void) { return VALUE - 3; }\n' % hs[0])
             rel = _os.path.relpath(hs[1], _os.path.dirname(hs[0]) or '.')
@@ -168,6 +179,8 @@ class IncrementalBuild(Bounded):
                 _os.chmod(lp, 0o755)
             env = dict(_os.environ, PATH=top + '/bin:/venv/bin:' + _os.environ['PATH'])
             env.pop('MAKEFLAGS', None)
+            if objc:
+                env['OBJC'] = 'clang'
 
             def run(cmd, **kw):
                 return subprocess.run(cmd, env=env, capture_output=True, text=True, timeout=300, **kw)
@@ -206,6 +219,9 @@ class IncrementalBuild(Bounded):
                 _os.remove(src + '/' + hs[0])
                 _os.remove(src + '/' + hs[1])
                 w('main.c', '#define VALUE 5\nint main(void) { return VALUE - 5; }\n')
+                if objc:
+                    w('helper.m', 'int helper(void) { return 5; }\n')
+                    _os.utime(src + '/helper.m', (t + 100, t + 100))
             t += 100
             _os.utime(src + '/main.c', (t, t))
             rc, out = make()
@@ -229,7 +245,7 @@ class MultiOutputStep(Bounded):
     one including the header and the one compiled from the source), and the next run rebuilds nothing; clean removes
     the outputs and the stamp, and the build after clean works."""
     target = 'bfg9000/backends/make/writer.py::multitarget_rule'
-    properties = ('C07', 'C03')
+    properties = ('C07', 'C03', 'C04')
     reason = 'behaviour of GNU make on the generated rules over an edit history: runtime contract with the real tools'
     native_chunk = 1
 
@@ -237,6 +253,7 @@ class MultiOutputStep(Bounded):
         yield {'outputs': ['gen/conf.h', 'gen/conf.c']}
         yield {'outputs': ['gen/conf.c', 'gen/conf.h']}
         yield {'outputs': ['conf.h', 'sub dir/conf.c']}
+        yield {'outputs': ['gen dir/conf.h', 'gen dir/include sub/conf.c']}      # an output directory inside another one
 
     def native_check(self, case, raw):
         import shutil, subprocess, tempfile
